@@ -2,8 +2,12 @@
 """writes seeded/README.md from seeded/*/meta.json"""
 import glob, json, os
 rows = []
+green = []
 for f in sorted(glob.glob("/verif/seeded/*/meta.json")):
     m = json.load(open(f))
+    if "id" not in m:
+        green.append((os.path.basename(os.path.dirname(f)), m))
+        continue
     r = m.get("what_i_ran", {})
     lines = r.get("check_lines", [])
     caught = next((l.strip() for l in lines if l.strip().startswith("assert=")), "")
@@ -21,4 +25,7 @@ with open("/verif/seeded/README.md", "w") as out:
         out.write("| %s | %s | %s | %s | %s | %s | %s | %s |\n" % (r[0], r[2], r[3], r[4], r[5], r[6], r[7], r[8]))
     n = len(rows); c = sum(1 for r in rows if r[5].startswith("caught"))
     out.write("\n%d of %d seeded changes are caught by the quick tier.\n" % (c, n))
+    out.write("\n## Behaviour-preserving refactorings (must stay green)\n\n")
+    for name, m in green:
+        out.write("* `%s`: %s. Result: %s.\n" % (name, m["summary"], m["what_i_ran"]["result"]))
 print("seeded/README.md written")
